@@ -77,6 +77,11 @@ pub struct DiscRig {
   /// local endpoints that have not been created yet (`new_late`)
   late_writer: Option<WriterIngredients>,
   late_reader: Option<ReaderIngredients>,
+  /// where the MessageReceiver reports DATA of remote SPDP writers; the Discovery thread reads it
+  spdp_liveness_receiver: mio_channel::Receiver<GuidPrefix>,
+  /// DataWriter side of the local writer's command channel
+  wcmd_sender: mio_channel::SyncSender<WriterCommand>,
+  next_sn: i64,
   _keep: Vec<Box<dyn std::any::Any>>,
 }
 
@@ -218,6 +223,32 @@ impl DiscRig {
     let (rstatus_sender, reader_status) = sync_status_channel::<DataReaderStatus>(4096).unwrap();
     let (rcmd_sender, rcmd_receiver) = mio_channel::sync_channel::<ReaderCommand>(0);
     let (poll_event_source, poll_event_sender) = mio_source::make_poll_channel().unwrap();
+    // the built-in SPDP reader: datagrams of remote SPDP writers are addressed to it (or to ENTITYID_UNKNOWN)
+    let mut ev = ev;
+    let spdp_qos = crate::discovery::discovery::Discovery::create_spdp_participant_qos();
+    let spdp_cache = dds_cache.write().unwrap().add_new_topic(
+      "DCPSParticipant".to_string(),
+      TypeDesc::new("SPDPDiscoveredParticipantData".to_string()),
+      &spdp_qos,
+    );
+    let (spdp_notification_sender, spdp_notification_receiver) = mio_channel::sync_channel::<()>(4);
+    let (spdp_status_sender, spdp_status) = sync_status_channel::<DataReaderStatus>(64).unwrap();
+    let (spdp_cmd_sender, spdp_cmd_receiver) = mio_channel::sync_channel::<ReaderCommand>(0);
+    let (spdp_poll_source, spdp_poll_sender) = mio_source::make_poll_channel().unwrap();
+    ev.verif_add_local_reader(ReaderIngredients {
+      guid: GUID::new_with_prefix_and_id(own_prefix, EntityId::SPDP_BUILTIN_PARTICIPANT_READER),
+      notification_sender: spdp_notification_sender,
+      status_sender: spdp_status_sender,
+      topic_name: "DCPSParticipant".to_string(),
+      topic_cache_handle: spdp_cache,
+      like_stateless: false,
+      qos_policy: spdp_qos.clone(),
+      data_reader_command_receiver: spdp_cmd_receiver,
+      data_reader_waker: Arc::new(Mutex::new(None)),
+      poll_event_sender: spdp_poll_sender,
+      security_plugins: None,
+    });
+
     let late_reader = Some(ReaderIngredients {
       guid: GUID::new_with_prefix_and_id(own_prefix, reader_entity),
       notification_sender,
@@ -244,13 +275,18 @@ impl DiscRig {
       reader_eid: [0, 0, 2, EntityKind::READER_WITH_KEY_USER_DEFINED.into()],
       late_writer,
       late_reader,
+      spdp_liveness_receiver,
+      wcmd_sender,
+      next_sn: 0,
       _keep: vec![
-        Box::new(wcmd_sender),
+        Box::new(spdp_notification_receiver),
+        Box::new(spdp_status),
+        Box::new(spdp_cmd_sender),
+        Box::new(spdp_poll_source),
         Box::new(rcmd_sender),
         Box::new(notification_receiver),
         Box::new(poll_event_source),
         Box::new(discovery_command_receiver),
-        Box::new(spdp_liveness_receiver),
         Box::new(db_event_receiver),
         Box::new(_add_reader_sender),
         Box::new(_remove_reader_sender),
@@ -260,6 +296,46 @@ impl DiscRig {
         Box::new(_dun_sender),
       ],
     }
+  }
+
+  /// a datagram arrives at the participant's socket: MessageReceiver::handle_received_packet
+  pub fn receive(&mut self, datagram: &[u8]) {
+    self.ev.verif_receive(&bytes::Bytes::copy_from_slice(datagram));
+  }
+
+  /// One turn of the event loop (real Poll, ACKNACK channel and writer command channels dispatched as
+  /// in DPEventLoop::event_loop) and of the Discovery thread's SPDP_LIVENESS_TOKEN arm (every prefix
+  /// reported by the MessageReceiver: DiscoveryDB::participant_is_alive). Returns what was handled.
+  pub fn turn(&mut self) -> usize {
+    let mut n = self.ev.verif_turn();
+    while let Ok(prefix) = self.spdp_liveness_receiver.try_recv() {
+      self.db.write().unwrap().participant_is_alive(prefix);
+      n += 1;
+    }
+    n
+  }
+
+  /// the application writes one sample with the local writer (command channel; handled at the next turn)
+  pub fn write_sample(&mut self) -> i64 {
+    self.next_sn += 1;
+    let _ = self.wcmd_sender.try_send(WriterCommand::DDSData {
+      ddsdata: crate::dds::ddsdata::DDSData::new(
+        crate::messages::submessages::elements::serialized_payload::SerializedPayload::new_from_bytes(
+          crate::RepresentationIdentifier::CDR_LE,
+          bytes::Bytes::from(vec![1u8, 2, 3, 4]),
+        ),
+      ),
+      write_options: crate::dds::with_key::datawriter::WriteOptions::default(),
+      sequence_number: crate::structure::sequence_number::SequenceNumber::new(self.next_sn),
+    });
+    self.next_sn
+  }
+
+  /// what the local writer knows about remote reader `reader`: (proxy present, all acknowledged before)
+  pub fn writer_proxy_of(&self, reader: [u8; 16]) -> (bool, i64) {
+    let we = EntityId::new([0, 0, 1], EntityKind::WRITER_WITH_KEY_USER_DEFINED);
+    let v = self.ev.verif_writer_proxy(we, guid_from_bytes(reader));
+    (v.present, v.all_acked_before)
   }
 
   /// the virtual clock of this thread moves forward
